@@ -88,7 +88,7 @@ fn gen_jv(rng: &mut Rng, depth: u32) -> JV {
         2 => JV::Num(rng.range(-50, 1000) as f64),
         3 => JV::Num(*rng.pick(&[0.5, 1.25, -3.75, 1e6, 123456.789, 0.001, -0.0, 9007199254740992.0, 1e-7, 123456789012345.0])),
         4 if rng.chance(1, 3) => JV::Str((*rng.pick(&["a;b", "x // y", "#k", "do { return 1 }", "a,b", "-o", "--input", "1 + 1", "output z = 1", "[1, 2]", "a=b", "tab\tsemi; colon:", "$HOME", "%s", "*"])).to_string()),
-        4 => JV::Str((*rng.pick(&["", "x", "héllo", "a b", "q\\z", "line", "12", "true", "ü", "say \"hi\"", "line1\nline2", "tab\there", "it's", "😀 emoji", "{\"not\":\"json\"}"])).to_string()),
+        4 => JV::Str((*rng.pick(&["", "x", "héllo", "a b", "q\\z", "line", "12", "true", "ü", "say \"hi\"", "line1\nline2", "tab\there", "it's", "😀 emoji", "{\"not\":\"json\"}", "cr\r\nlf", "bare\rcr", "\nleading", "trailing\n", "blank\n\nline", " padded ", "two\r\n\r\nbreaks"])).to_string()),
         5 => JV::List((0..rng.below(4)).map(|_| gen_jv(rng, depth + 1)).collect()),
         _ => {
             let mut f = vec![];
@@ -283,6 +283,22 @@ fn gen_script(rng: &mut Rng, inputs_hint: &[String], world: &[(String, JV)]) -> 
                     stmts.push(CStmt::Bind(name, CE::Lit(JV::Str("x".repeat(rng.range(1, 120) as usize)))));
                 }
             }
+        }
+    }
+    // sometimes a string literal that spans lines (LF, CRLF, bare CR, blank lines inside it):
+    // its value is the bytes between the quotes, whatever the line endings of the script
+    if rng.chance(1, 5) {
+        let text = (*rng.pick(&["cr\r\nlf", "line1\nline2", "bare\rcr", "\nleading", "trailing\r\n", "blank\n\nline", "two\r\n\r\nbreaks", "a\r\n  indented"])).to_string();
+        let lit = match rng.below(3) {
+            0 => CE::Lit(JV::Str(text)),
+            1 => CE::List(vec![CE::Lit(JV::Num(1.0)), CE::Lit(JV::Str(text))]),
+            _ => CE::Rec(vec![("t".into(), CE::Lit(JV::Str(text)))]),
+        };
+        let pos = rng.usize_below(stmts.len() + 1);
+        if outs < 6 {
+            stmts.insert(pos, CStmt::OutBind("mlq".into(), lit));
+        } else {
+            stmts.insert(pos, CStmt::Bind("mlq".into(), lit));
         }
     }
     // optional failing statement at a seeded position
